@@ -105,6 +105,7 @@ type kdcReqInfo struct {
 	sname  types.PrincipalName
 	addrs  []types.HostAddress
 	padata types.PADataSequence
+	crealm string // the client's realm when it is not the realm of the request
 }
 
 const clientPassword = "Pässword-1 with ünicode"
@@ -245,6 +246,9 @@ func mintKDCRepKey(rng *RNG, c repCase, rq kdcReqInfo, clientKey types.Encryptio
 		tkt.SName = types.PrincipalName{NameType: rq.sname.NameType, NameString: c.tktSName}
 	}
 	f := messages.KDCRepFields{PVNO: 5, MsgType: 11, PAData: padata, CRealm: rq.realm, CName: rq.cname, Ticket: tkt, EncPart: ed}
+	if rq.crealm != "" {
+		f.CRealm = rq.crealm
+	}
 	if c.tgs {
 		f.MsgType = 13
 		f.PAData = nil
